@@ -417,5 +417,5 @@ func runC15(t *testing.T, id string, c c15Case) {
 	for _, inner := range expected {
 		nrel += len(inner)
 	}
-	rep.Case("C15", id, true, id, map[string]interface{}{"case": c, "expectedRelated": flat(expected), "wakeups": fmt.Sprintf("%d/%d", woke, total)})
+	rep.Case("C15", id, true, id, map[string]interface{}{"case": c, "expectedRelated": flat(expected), "gotRelated": flat(gotM), "wakeups": fmt.Sprintf("%d/%d", woke, total)})
 }
